@@ -294,16 +294,22 @@ class Request(Message):
             done = data[:2] == b"\r\n"
 
             if idx < 0 and not done:
+                # only the header block counts against the cap, however the
+                # bytes happen to be split across reads (the last 3 bytes may
+                # be the start of the terminator)
+                if len(data) - 3 > self.max_buffer_headers:
+                    raise LimitRequestHeaders("max buffer headers")
                 self.get_data(unreader, buf)
                 data = buf.getvalue()
-                if len(data) > self.max_buffer_headers:
-                    raise LimitRequestHeaders("max buffer headers")
             else:
                 break
 
         if done:
             self.unreader.unread(data[2:])
             return b""
+
+        if idx > self.max_buffer_headers:
+            raise LimitRequestHeaders("max buffer headers")
 
         self.headers = self.parse_headers(data[:idx], from_trailer=False)
 
